@@ -4,6 +4,7 @@ import ChythonModel.Spec.Parity
 import ChythonModel.Proofs.C12Perm
 import ChythonModel.Model.StereoFix
 import ChythonModel.Proofs.C12Fix
+import ChythonModel.Model.StereoDiff
 import Mathlib.Tactic.Ring
 /-!
 # C12 — stereo signs are permutation-consistent
@@ -979,5 +980,264 @@ example : ∀ r r' : List Label, r.Perm r' → (fun (r : List Label) (u : SUnit)
   intro r r' h; simp [h.length_eq]
 
 end FixStereo
+
+/-! ## 10. `__differentiation`: which substituent pair a labelled double bond / allene is compared through
+
+`diffMark` is the function the driver runs (`df`) against the calls `__differentiation` really makes. -/
+section Differentiation
+open ChythonModel.Model.StereoDiff
+
+/-- `min(n1, n2, key=morgan.get)` returns one of its arguments, of the lowest class -/
+theorem pickRef_spec (morgan : Nat → Option Int) (n1 n2 : Nat) (a b : Int) (h1 : morgan n1 = some a) (h2 : morgan n2 = some b) :
+    ∃ r, pickRef morgan n1 (some n2) = .ok r ∧ (r = n1 ∨ r = n2) ∧ ∀ c, morgan r = some c → c ≤ a ∧ c ≤ b := by
+  by_cases h : b < a
+  · refine ⟨n2, by simp [pickRef, h1, h2, h], Or.inr rfl, ?_⟩
+    intro c hc; rw [h2] at hc; injection hc with hc; omega
+  · refine ⟨n1, by simp [pickRef, h1, h2, h], Or.inl rfl, ?_⟩
+    intro c hc; rw [h1] at hc; injection hc with hc; omega
+
+/-- the choice is by class, not by atom number: it commutes with every renumbering `π` of the atoms that carries the classes along -/
+theorem pickRef_renumber (π : Nat → Nat) (morgan morgan' : Nat → Option Int) (n1 : Nat) (n2 : Option Nat)
+    (h1 : morgan' (π n1) = morgan n1) (h2 : ∀ x, n2 = some x → morgan' (π x) = morgan x) :
+    pickRef morgan' (π n1) (n2.map π) = (pickRef morgan n1 n2).map π := by
+  cases n2 with
+  | none => simp [pickRef, Except.map]
+  | some x =>
+    have hx := h2 x rfl
+    simp only [Option.map, pickRef, h1, hx]
+    cases morgan n1 <;> cases morgan x <;> simp [Except.map]
+    split <;> rfl
+
+/-- with distinct classes the order in which the two substituents of an end are listed does not matter -/
+theorem pickRef_swap (morgan : Nat → Option Int) (n1 n2 : Nat) (a b : Int) (h1 : morgan n1 = some a) (h2 : morgan n2 = some b)
+    (hab : a ≠ b) : pickRef morgan n1 (some n2) = pickRef morgan n2 (some n1) := by
+  simp only [pickRef, h1, h2]
+  by_cases h : b < a
+  · have : ¬ a < b := by omega
+    simp [h, this]
+  · have : a < b := by omega
+    simp [h, this]
+
+/-- the substituent chosen at an end occupies slot `k` or `k + 2` of the environment -/
+theorem pickRef_slot0 (morgan : Nat → Option Int) (e : Ends) (isH : Nat → Bool) (c0 : Int) (h0 : morgan e.n0 = some c0)
+    (h2 : ∀ x, e.n2 = some x → ∃ c, morgan x = some c) :
+    ∃ a k, pickRef morgan e.n0 e.n2 = .ok a ∧ (k = 0 ∨ k = 2) ∧ IsSlot e isH k a ∧
+      (k = 2 ↔ ∃ x c, e.n2 = some x ∧ morgan x = some c ∧ c < c0) := by
+  rcases hn : e.n2 with _ | x
+  · exact ⟨e.n0, 0, by simp [pickRef], Or.inl rfl, rfl, by simp⟩
+  · obtain ⟨c, hc⟩ := h2 x hn
+    by_cases h : c < c0
+    · refine ⟨x, 2, by simp [pickRef, h0, hc, h], Or.inr rfl, Or.inl hn, ?_⟩
+      simp only [true_iff]
+      exact ⟨x, c, rfl, hc, h⟩
+    · refine ⟨e.n0, 0, by simp [pickRef, h0, hc, h], Or.inl rfl, rfl, ?_⟩
+      constructor
+      · intro h'; cases h'
+      · rintro ⟨x', c', hx', hc', hlt⟩
+        injection hx' with hx'; subst hx'
+        rw [hc] at hc'; injection hc' with hc'; subst hc'
+        exact absurd hlt h
+
+theorem pickRef_slot1 (morgan : Nat → Option Int) (e : Ends) (isH : Nat → Bool) (c1 : Int) (h1 : morgan e.n1 = some c1)
+    (h3 : ∀ x, e.n3 = some x → ∃ c, morgan x = some c) :
+    ∃ b k, pickRef morgan e.n1 e.n3 = .ok b ∧ (k = 1 ∨ k = 3) ∧ IsSlot e isH k b ∧
+      (k = 3 ↔ ∃ x c, e.n3 = some x ∧ morgan x = some c ∧ c < c1) := by
+  rcases hn : e.n3 with _ | x
+  · exact ⟨e.n1, 1, by simp [pickRef], Or.inl rfl, rfl, by simp⟩
+  · obtain ⟨c, hc⟩ := h3 x hn
+    by_cases h : c < c1
+    · refine ⟨x, 3, by simp [pickRef, h1, hc, h], Or.inr rfl, Or.inl hn, ?_⟩
+      simp only [true_iff]
+      exact ⟨x, c, rfl, hc, h⟩
+    · refine ⟨e.n1, 1, by simp [pickRef, h1, hc, h], Or.inl rfl, rfl, ?_⟩
+      constructor
+      · intro h'; cases h'
+      · rintro ⟨x', c', hx', hc', hlt⟩
+        injection hx' with hx'; subst hx'
+        rw [hc] at hc'; injection hc' with hc'; subst hc'
+        exact absurd hlt h
+
+/-- "a lower-classed second substituent exists at this end" -/
+def lowerSecond (morgan : Nat → Option Int) (n : Nat) (n2 : Option Nat) : Prop :=
+  ∃ x c c0, n2 = some x ∧ morgan x = some c ∧ morgan n = some c0 ∧ c < c0
+
+/-- **value of the mark**: the label, inverted iff exactly one end has a lower-classed *second* substituent - a statement about
+classes only, no atom number occurs -/
+theorem diffMark_value (morgan : Nat → Option Int) (e : Ends) (isH : Nat → Bool) (wf : EndsWF e isH) (s : Bool)
+    (c0 c1 : Int) (h0 : morgan e.n0 = some c0) (h1 : morgan e.n1 = some c1)
+    (h2 : ∀ x, e.n2 = some x → ∃ c, morgan x = some c) (h3 : ∀ x, e.n3 = some x → ∃ c, morgan x = some c) :
+    ∃ a b f, diffMark morgan e isH (some s) = .ok (a, b, s ^^ f) ∧
+      (f = true ↔ ¬ (lowerSecond morgan e.n0 e.n2 ↔ lowerSecond morgan e.n1 e.n3)) := by
+  obtain ⟨a, k0, ha, hk0, hs0, hl0⟩ := pickRef_slot0 morgan e isH c0 h0 h2
+  obtain ⟨b, k1, hb, hk1, hs1, hl1⟩ := pickRef_slot1 morgan e isH c1 h1 h3
+  have ht := translateEnds_slots e isH wf k0 k1 a b hk0 hk1 hs0 hs1 s
+  refine ⟨a, b, endsFlip k0 k1, ?_, ?_⟩
+  · simp [diffMark, ha, hb, pickSign, ht, bind, Except.bind]
+  · have e0 : lowerSecond morgan e.n0 e.n2 ↔ k0 = 2 := by
+      rw [hl0]; unfold lowerSecond
+      constructor
+      · rintro ⟨x, c, c0', hx, hc, hc0, hlt⟩
+        rw [h0] at hc0; injection hc0 with hc0; subst hc0
+        exact ⟨x, c, hx, hc, hlt⟩
+      · rintro ⟨x, c, hx, hc, hlt⟩
+        exact ⟨x, c, c0, hx, hc, h0, hlt⟩
+    have e1 : lowerSecond morgan e.n1 e.n3 ↔ k1 = 3 := by
+      rw [hl1]; unfold lowerSecond
+      constructor
+      · rintro ⟨x, c, c1', hx, hc, hc1, hlt⟩
+        rw [h1] at hc1; injection hc1 with hc1; subst hc1
+        exact ⟨x, c, hx, hc, hlt⟩
+      · rintro ⟨x, c, hx, hc, hlt⟩
+        exact ⟨x, c, c1, hx, hc, h1, hlt⟩
+    rw [e0, e1]
+    rcases hk0 with rfl | rfl <;> rcases hk1 with rfl | rfl <;> simp [endsFlip]
+
+/-- the same double bond / allene with the two substituents of the first end listed the other way round -/
+def swapFirst (e : Ends) (x : Nat) : Ends := ⟨x, e.n1, some e.n0, e.n3⟩
+/-- … of the last end -/
+def swapLast (e : Ends) (y : Nat) : Ends := ⟨e.n0, y, e.n2, some e.n1⟩
+
+theorem swapFirst_wf (e : Ends) (isH : Nat → Bool) (wf : EndsWF e isH) (x : Nat) (hx : e.n2 = some x) :
+    EndsWF (swapFirst e x) isH := by
+  obtain ⟨n0, n1, n2, n3⟩ := e
+  have ⟨h0, h1, h2, h3, d01, d02, d03, d12, d13, d23⟩ := wf
+  simp only at hx h0 h1 h2 h3 d01 d02 d03 d12 d13 d23
+  subst hx
+  refine ⟨h2 x rfl, h1, ?_, h3, ?_, ?_, ?_, ?_, d13, ?_⟩ <;> simp only [swapFirst]
+  · intro y hy; injection hy with hy; subst hy; exact h0
+  · intro h; exact d12 (by rw [h])
+  · intro h; injection h with h; exact d02 (by rw [h])
+  · exact d23 x rfl
+  · intro h; injection h with h; exact d01 h
+  · intro y hy; injection hy with hy; subst hy; exact d03
+
+theorem swapLast_wf (e : Ends) (isH : Nat → Bool) (wf : EndsWF e isH) (y : Nat) (hy : e.n3 = some y) :
+    EndsWF (swapLast e y) isH := by
+  obtain ⟨n0, n1, n2, n3⟩ := e
+  have ⟨h0, h1, h2, h3, d01, d02, d03, d12, d13, d23⟩ := wf
+  simp only at hy h0 h1 h2 h3 d01 d02 d03 d12 d13 d23
+  subst hy
+  refine ⟨h0, h3 y rfl, h2, ?_, ?_, d02, ?_, ?_, ?_, ?_⟩ <;> simp only [swapLast]
+  · intro z hz; injection hz with hz; subst hz; exact h1
+  · intro h; exact d03 (by rw [h])
+  · intro h; injection h with h; exact d01 h.symm
+  · intro h; exact d23 y h rfl
+  · intro h; injection h with h; exact d13 (by rw [h])
+  · intro z hz h; injection h with h; subst h; exact d12 hz
+
+/-- **the mark does not depend on the order in which `stereogenic_cumulenes` lists the two substituents of the first end**:
+listing them the other way round (the stored label then reads inverted) gives the same reference atoms and the same mark -/
+theorem diffMark_first_end_order (morgan : Nat → Option Int) (e : Ends) (isH : Nat → Bool) (wf : EndsWF e isH) (s : Bool)
+    (x : Nat) (hx : e.n2 = some x) (c0 cx c1 : Int) (h0 : morgan e.n0 = some c0) (hcx : morgan x = some cx)
+    (h1 : morgan e.n1 = some c1) (h3 : ∀ y, e.n3 = some y → ∃ c, morgan y = some c) (hne : c0 ≠ cx) :
+    diffMark morgan (swapFirst e x) isH (some (!s)) = diffMark morgan e isH (some s) := by
+  have wf' := swapFirst_wf e isH wf x hx
+  obtain ⟨b, k1, hb, hk1, hs1, -⟩ := pickRef_slot1 morgan e isH c1 h1 h3
+  have hs1' : IsSlot (swapFirst e x) isH k1 b := by
+    rcases hk1 with rfl | rfl <;> exact hs1
+  have hb' : pickRef morgan (swapFirst e x).n1 (swapFirst e x).n3 = .ok b := hb
+  by_cases h : cx < c0
+  · have ha : pickRef morgan e.n0 e.n2 = .ok x := by simp [hx, pickRef, h0, hcx, h]
+    have ha' : pickRef morgan (swapFirst e x).n0 (swapFirst e x).n2 = .ok x := by
+      have : ¬ c0 < cx := by omega
+      simp [swapFirst, pickRef, h0, hcx, this]
+    have t := translateEnds_slots e isH wf 2 k1 x b (Or.inr rfl) hk1 (Or.inl hx) hs1 s
+    have t' := translateEnds_slots (swapFirst e x) isH wf' 0 k1 x b (Or.inl rfl) hk1 rfl hs1' (!s)
+    simp only [diffMark, ha, ha', hb, hb', pickSign, t, t', bind, Except.bind]
+    rcases hk1 with rfl | rfl <;> cases s <;> rfl
+  · have hlt : c0 < cx := by omega
+    have ha : pickRef morgan e.n0 e.n2 = .ok e.n0 := by simp [hx, pickRef, h0, hcx, h]
+    have ha' : pickRef morgan (swapFirst e x).n0 (swapFirst e x).n2 = .ok e.n0 := by
+      simp [swapFirst, pickRef, h0, hcx, hlt]
+    have t := translateEnds_slots e isH wf 0 k1 e.n0 b (Or.inl rfl) hk1 rfl hs1 s
+    have t' := translateEnds_slots (swapFirst e x) isH wf' 2 k1 e.n0 b (Or.inr rfl) hk1 (Or.inl rfl) hs1' (!s)
+    simp only [diffMark, ha, ha', hb, hb', pickSign, t, t', bind, Except.bind]
+    rcases hk1 with rfl | rfl <;> cases s <;> rfl
+
+/-- … of the last end -/
+theorem diffMark_last_end_order (morgan : Nat → Option Int) (e : Ends) (isH : Nat → Bool) (wf : EndsWF e isH) (s : Bool)
+    (y : Nat) (hy : e.n3 = some y) (c0 c1 cy : Int) (h0 : morgan e.n0 = some c0) (h1 : morgan e.n1 = some c1)
+    (hcy : morgan y = some cy) (h2 : ∀ x, e.n2 = some x → ∃ c, morgan x = some c) (hne : c1 ≠ cy) :
+    diffMark morgan (swapLast e y) isH (some (!s)) = diffMark morgan e isH (some s) := by
+  have wf' := swapLast_wf e isH wf y hy
+  obtain ⟨a, k0, ha, hk0, hs0, -⟩ := pickRef_slot0 morgan e isH c0 h0 h2
+  have hs0' : IsSlot (swapLast e y) isH k0 a := by
+    rcases hk0 with rfl | rfl <;> exact hs0
+  have ha' : pickRef morgan (swapLast e y).n0 (swapLast e y).n2 = .ok a := ha
+  by_cases h : cy < c1
+  · have hb : pickRef morgan e.n1 e.n3 = .ok y := by simp [hy, pickRef, h1, hcy, h]
+    have hb' : pickRef morgan (swapLast e y).n1 (swapLast e y).n3 = .ok y := by
+      have : ¬ c1 < cy := by omega
+      simp [swapLast, pickRef, h1, hcy, this]
+    have t := translateEnds_slots e isH wf k0 3 a y hk0 (Or.inr rfl) hs0 (Or.inl hy) s
+    have t' := translateEnds_slots (swapLast e y) isH wf' k0 1 a y hk0 (Or.inl rfl) hs0' rfl (!s)
+    simp only [diffMark, ha, ha', hb, hb', pickSign, t, t', bind, Except.bind]
+    rcases hk0 with rfl | rfl <;> cases s <;> rfl
+  · have hlt : c1 < cy := by omega
+    have hb : pickRef morgan e.n1 e.n3 = .ok e.n1 := by simp [hy, pickRef, h1, hcy, h]
+    have hb' : pickRef morgan (swapLast e y).n1 (swapLast e y).n3 = .ok e.n1 := by
+      simp [swapLast, pickRef, h1, hcy, hlt]
+    have t := translateEnds_slots e isH wf k0 1 a e.n1 hk0 (Or.inl rfl) hs0 rfl s
+    have t' := translateEnds_slots (swapLast e y) isH wf' k0 3 a e.n1 hk0 (Or.inr rfl) hs0' (Or.inl rfl) (!s)
+    simp only [diffMark, ha, ha', hb, hb', pickSign, t, t', bind, Except.bind]
+    rcases hk0 with rfl | rfl <;> cases s <;> rfl
+
+/-- the environment after renumbering the atoms by `π` -/
+def mapEnds (π : Nat → Nat) (e : Ends) : Ends := ⟨π e.n0, π e.n1, e.n2.map π, e.n3.map π⟩
+
+theorem matchOpt_renumber (π : Nat → Nat) (hπ : ∀ a b, π a = π b → a = b) (isH isH' : Nat → Bool)
+    (hH : ∀ x, isH' (π x) = isH x) (x : Nat) (nk : Option Nat) :
+    matchOpt (π x) (nk.map π) isH' = matchOpt x nk isH := by
+  cases nk with
+  | none => simp [matchOpt, hH]
+  | some y =>
+    simp only [matchOpt, Option.map]
+    by_cases h : x = y
+    · subst h; simp
+    · have : π x ≠ π y := fun h' => h (hπ _ _ h')
+      simp [h, this]
+
+theorem endsSlots_renumber (π : Nat → Nat) (hπ : ∀ a b, π a = π b → a = b) (isH isH' : Nat → Bool)
+    (hH : ∀ x, isH' (π x) = isH x) (e : Ends) (a b : Nat) :
+    endsSlots (mapEnds π e) isH' (π a) (π b) = endsSlots e isH a b := by
+  have inj : ∀ u v : Nat, (π u = π v) = (u = v) := fun u v => propext ⟨hπ u v, fun h => by rw [h]⟩
+  simp only [endsSlots, mapEnds, inj, matchOpt_renumber π hπ isH isH' hH]
+
+/-- **renumbering invariance of the mark**: for every injective renumbering `π` of the atoms that carries classes and
+hydrogen-ness along, the reference atoms are the images of the old ones and the mark is the same - no atom number enters -/
+theorem diffMark_renumber (π : Nat → Nat) (hπ : ∀ a b, π a = π b → a = b) (morgan morgan' : Nat → Option Int)
+    (isH isH' : Nat → Bool) (hM : ∀ x, morgan' (π x) = morgan x) (hH : ∀ x, isH' (π x) = isH x) (e : Ends) (stored : Option Bool) :
+    diffMark morgan' (mapEnds π e) isH' stored = (diffMark morgan e isH stored).map (fun r => (π r.1, π r.2.1, r.2.2)) := by
+  have ra := pickRef_renumber π morgan morgan' e.n0 e.n2 (hM _) (fun x _ => hM x)
+  have rb := pickRef_renumber π morgan morgan' e.n1 e.n3 (hM _) (fun x _ => hM x)
+  simp only [diffMark, mapEnds] at *
+  rw [ra, rb]
+  rcases pickRef morgan e.n0 e.n2 with err | a
+  · simp [Except.map, bind, Except.bind]
+  · rcases pickRef morgan e.n1 e.n3 with err | b
+    · simp [Except.map, bind, Except.bind]
+    · have hs := endsSlots_renumber π hπ isH isH' hH e a b
+      simp only [mapEnds] at hs
+      simp only [Except.map, bind, Except.bind, translateEnds, hs]
+      cases stored with
+      | none => simp [pickSign]
+      | some s =>
+        simp only [pickSign]
+        cases endsSlots e isH a b with
+        | error err => rfl
+        | ok t =>
+          simp only []
+          cases getKey alkeneTranslate t <;> rfl
+
+/-- hypotheses of the theorems above are satisfiable: F (class 9) / CH3 (class 6) at the first end, the hub (class 7) at the last -/
+example :
+    diffMark (fun x => [(1, (9 : Int)), (2, 7), (3, 6)].lookup x) ⟨1, 2, some 3, none⟩ (fun _ => false) (some true)
+      = .ok (3, 2, false) := by decide
+example :
+    diffMark (fun x => [(1, (9 : Int)), (2, 7), (3, 6)].lookup x) (swapFirst ⟨1, 2, some 3, none⟩ 3) (fun _ => false) (some false)
+      = .ok (3, 2, false) := by decide
+example : diffMark (fun _ => none) ⟨1, 2, some 3, none⟩ (fun _ => false) (some true) = .error .typeError := by decide
+
+end Differentiation
 
 end ChythonModel.Props.C12
